@@ -761,7 +761,8 @@ def sounding_history(ctx, report):
         for a in range(N_ATOMS):
             top.add_atom("C%d" % a, md.element.carbon, res)
         topf = os.path.join(d, "top.pdb")
-        for fmt in [f for f in ("xtc", "h5") if f in FORMATS]:
+        # (nc: AMBER NetCDF, whose native length unit is not mdtraj's -- md.load converts, a raw reader would not)
+        for fmt in [f for f in ("xtc", "h5") if f in FORMATS] + ["nc"]:
             for n1, n2 in ((12, 17), (12, 5)):
                 f = os.path.join(d, "run_%d_%d.%s" % (n1, n2, fmt))
                 other = os.path.join(d, "other.%s" % fmt)
